@@ -257,6 +257,8 @@ fn render_sync_snap(s: &SyncSnap<VKey, VVal>, now: u64, freqs: String) -> String
 pub enum Live {
     Unsync(Box<UCache<VKey, VVal, VBuildHasher>>, VerifClock),
     Sync(SCache<VKey, VVal, VBuildHasher>, VerifClock),
+    UnsyncNew(Box<UCache<VKey, VVal>>, VerifClock),
+    SyncNew(SCache<VKey, VVal>, VerifClock),
     Facade(crate::facade::Facade),
 }
 
@@ -265,6 +267,16 @@ pub fn build(cfg: &Cfg) -> Result<Live, String> {
     let wk = cfg.weigher;
     let clock = VerifClock::new();
     let r = catch_unwind(AssertUnwindSafe(|| match cfg.kind.as_str() {
+        "unsync" if cfg.ctor_new => {
+            let mut c = UCache::<VKey, VVal>::new(cfg.cap.unwrap_or(0));
+            c.verif_set_clock(&clock);
+            Ok(Live::UnsyncNew(Box::new(c), clock))
+        }
+        "sync" if cfg.ctor_new => {
+            let c = SCache::<VKey, VVal>::new(cfg.cap.unwrap_or(0));
+            c.verif_set_clock(&clock);
+            Ok(Live::SyncNew(c, clock))
+        }
         "unsync" => {
             let mut b = UCache::<VKey, VVal>::builder();
             if let Some(c) = cfg.cap {
@@ -344,7 +356,7 @@ fn pred_fn(ws: &[&str]) -> Option<Box<dyn FnMut(&VKey, &VVal) -> bool>> {
     }
 }
 
-fn exec_unsync(c: &mut UCache<VKey, VVal, VBuildHasher>, clock: &VerifClock, op: &str) -> String {
+fn exec_unsync<S: std::hash::BuildHasher + Clone>(c: &mut UCache<VKey, VVal, S>, clock: &VerifClock, op: &str) -> String {
     let ws: Vec<&str> = op.split_whitespace().collect();
     let num = |i: usize| -> Option<u64> { ws.get(i).and_then(|s| s.parse().ok()) };
     match ws.first().copied() {
@@ -388,6 +400,19 @@ fn exec_unsync(c: &mut UCache<VKey, VVal, VBuildHasher>, clock: &VerifClock, op:
             }
             None => "bad-op".into(),
         },
+        Some("policy") if ws.len() == 1 => {
+            let p = c.policy();
+            let d = |x: Option<Duration>| match x {
+                Some(d) => d.as_nanos().to_string(),
+                None => "-".to_string(),
+            };
+            format!(
+                "policy cap={} ttl={} tti={}",
+                match p.max_capacity() { Some(c) => c.to_string(), None => "-".to_string() },
+                d(p.time_to_live()),
+                d(p.time_to_idle())
+            )
+        }
         Some("invall") if ws.len() == 1 => {
             c.invalidate_all();
             "ok".into()
@@ -431,7 +456,7 @@ fn exec_unsync(c: &mut UCache<VKey, VVal, VBuildHasher>, clock: &VerifClock, op:
     }
 }
 
-fn exec_sync(c: &SCache<VKey, VVal, VBuildHasher>, clock: &VerifClock, op: &str) -> String {
+fn exec_sync<S: std::hash::BuildHasher + Clone + Send + Sync + 'static>(c: &SCache<VKey, VVal, S>, clock: &VerifClock, op: &str) -> String {
     let ws: Vec<&str> = op.split_whitespace().collect();
     let num = |i: usize| -> Option<u64> { ws.get(i).and_then(|s| s.parse().ok()) };
     match ws.first().copied() {
@@ -475,6 +500,19 @@ fn exec_sync(c: &SCache<VKey, VVal, VBuildHasher>, clock: &VerifClock, op: &str)
             }
             None => "bad-op".into(),
         },
+        Some("policy") if ws.len() == 1 => {
+            let p = c.policy();
+            let d = |x: Option<Duration>| match x {
+                Some(d) => d.as_nanos().to_string(),
+                None => "-".to_string(),
+            };
+            format!(
+                "policy cap={} ttl={} tti={}",
+                match p.max_capacity() { Some(c) => c.to_string(), None => "-".to_string() },
+                d(p.time_to_live()),
+                d(p.time_to_idle())
+            )
+        }
         Some("invall") if ws.len() == 1 => {
             c.invalidate_all();
             "ok".into()
@@ -574,6 +612,24 @@ pub fn run_file<R: BufRead, W: Write>(input: R, out: &mut W) {
                 }
             }
             Some(Live::Sync(c, clock)) => {
+                match catch_unwind(AssertUnwindSafe(|| exec_sync(c, clock, op))) {
+                    Ok(s) => s,
+                    Err(p) => {
+                        dead = true;
+                        format!("panic {}", classify_panic(&panic_msg(p)))
+                    }
+                }
+            }
+            Some(Live::UnsyncNew(c, clock)) => {
+                match catch_unwind(AssertUnwindSafe(|| exec_unsync(c, clock, op))) {
+                    Ok(s) => s,
+                    Err(p) => {
+                        dead = true;
+                        format!("panic {}", classify_panic(&panic_msg(p)))
+                    }
+                }
+            }
+            Some(Live::SyncNew(c, clock)) => {
                 match catch_unwind(AssertUnwindSafe(|| exec_sync(c, clock, op))) {
                     Ok(s) => s,
                     Err(p) => {
